@@ -138,7 +138,7 @@ def gen_pysetters(repo):
                 text = tx.run()
             except Shape as e:
                 untranslated[full] = str(e)
-                text = stub(full, rec, vtype, str(e)) if kind == 'setter' else \
+                text = stub(full, rec, 'α', str(e)) if kind == 'setter' else \
                     ('/-- `%s` could NOT be translated: %s -/\ndef py_%s : %s.M (%s) := throw (Err.fault "untranslated")\n' % (full, e, full, rec, ty(vt)))
             out.append(text)
             summary[full] = {'statements': (sum(1 for _ in ast.walk(fn) if isinstance(_, ast.stmt)) - 1) if fn is not None else 0,
